@@ -4,10 +4,19 @@
    project that mirror the implementation method by method (key derivation,
    which score terms are summed, where return values and scores are stored).
 
-   The model is *observational* on choice maps: a choice map is the finite trie
-   of its valid values (a masked-off or non-selected-branch value is absent), which
-   is the abstraction C17 ties to the real ChoiceMap classes.  Errors that depend
-   on the static shape of masked placeholders are therefore not modelled. *)
+   Choice maps are *observational*: the finite map from full addresses to leaf
+   values that public-API lookups see.  A leaf masked by an array flag keeps its
+   value under `VM false` (as `ChoiceMap.mask` does), so that `assess` of a trace's
+   own choices can read it back exactly like the implementation.  Unselected
+   switch branches (zero placeholders masked off) are not represented.
+
+     distribution.py  Distribution.simulate / generate_choice_map / project, ExactDensity.assess
+     static.py        SimulateHandler / AssessHandler / GenerateHandler, StaticTrace, project
+     vmap.py          Vmap.simulate / generate / assess / project, VmapTrace.build
+     scan.py          Scan.simulate / generate / assess / project, ScanTrace
+     switch.py        Switch.simulate / generate / assess / project, SwitchTrace
+     mask.py          MaskCombinator.*, MaskTrace.build
+     dimap.py         Dimap.*                                                           *)
 From Coq Require Import List Bool ZArith NArith Lia.
 Import ListNotations.
 From Gen Require Import SelGen.
@@ -16,8 +25,8 @@ Open Scope Z_scope.
 
 (* ---------------- values ---------------- *)
 Inductive val :=
-| VZ (z : Z)                 (* float32 scalar holding a small integer *)
-| VB (b : bool)              (* flag *)
+| VZ (z : Z)                 (* float32 / int32 scalar holding a small integer *)
+| VB (b : bool)              (* array flag *)
 | VT (l : list val)          (* python tuple *)
 | VA (l : list val)          (* array, leading axis *)
 | VM (f : bool) (v : val)    (* Mask(value, flag) *)
@@ -51,6 +60,25 @@ Definition err_eqb (a b : err) : bool :=
   | EAddressReuse, EAddressReuse | EMissingAddress, EMissingAddress | ENotSupported, ENotSupported
   | EType, EType | EOther, EOther => true
   | _, _ => false
+  end.
+
+Definition mapM {A B} (f : A -> res B) : list A -> res (list B) :=
+  fix go (l : list A) : res (list B) :=
+    match l with
+    | [] => Ok []
+    | x :: r => do y <- f x; do ys <- go r; Ok (y :: ys)
+    end.
+
+(* the documented scan loop: step i carry = (payload, carry', y) *)
+Fixpoint scanM {T} (step : nat -> val -> res (T * val * val)) (is : list nat) (c : val)
+  : res (list T * val * list val) :=
+  match is with
+  | [] => Ok ([], c, [])
+  | i :: r =>
+      do x <- step i c;
+      let '(t, c', y) := x in
+      do rr <- scanM step r c';
+      let '(ts, cf, ys) := rr in Ok (t :: ts, cf, y :: ys)
   end.
 
 (* ---------------- pure expressions (argument / return computations) ---------------- *)
@@ -91,11 +119,7 @@ Fixpoint eval (env : list val) (e : expr) {struct e} : res val :=
   | EMaskValue m => do x <- eval env m; match x with VM _ v => Ok v | _ => Err EType end
   end.
 
-Fixpoint eval_list (env : list val) (l : list expr) : res (list val) :=
-  match l with
-  | [] => Ok []
-  | x :: r => do v <- eval env x; do vs <- eval_list env r; Ok (v :: vs)
-  end.
+Definition eval_list (env : list val) (l : list expr) : res (list val) := mapM (eval env) l.
 
 (* ---------------- probe distributions ---------------- *)
 (* probe d takes one scalar parameter p; sample = p + (((k0 xor k1) >> s) land 3);
@@ -136,40 +160,39 @@ Fixpoint gfs_nth (bs : gfs) (i : nat) : option gf :=
   | GCons _ r, S j => gfs_nth r j
   end.
 
-(* ---------------- choice maps (observational trie) ---------------- *)
+(* ---------------- choice maps: finite maps from full addresses to leaf values ---------------- *)
 Inductive ckey := KS (n : nat) | KI (i : nat).
 Definition ckey_eqb (a b : ckey) : bool :=
   match a, b with KS x, KS y | KI x, KI y => Nat.eqb x y | _, _ => false end.
-Inductive chm := CE | CV (v : val) | CN (kids : list (ckey * chm)).
+Definition path := list ckey.
+Fixpoint path_eqb (a b : path) : bool :=
+  match a, b with [] , [] => true | x :: r, y :: s => ckey_eqb x y && path_eqb r s | _, _ => false end.
+Definition chm := list (path * val).       (* left-biased: the first entry for an address wins *)
 
-Fixpoint kids_get (kids : list (ckey * chm)) (k : ckey) : chm :=
-  match kids with
-  | [] => CE
-  | (k', c) :: r => if ckey_eqb k k' then c else kids_get r k
+Fixpoint cget (c : chm) (p : path) : option val :=
+  match c with
+  | [] => None
+  | (q, v) :: r => if path_eqb q p then Some v else cget r p
   end.
-Definition csub (c : chm) (k : ckey) : chm := match c with CN kids => kids_get kids k | _ => CE end.
-Definition csub_path (c : chm) (p : list ckey) : chm := fold_left csub p c.
+(* get_submap at one component *)
+Fixpoint csub (c : chm) (k : ckey) : chm :=
+  match c with
+  | [] => []
+  | (k' :: q, v) :: r => if ckey_eqb k k' then (q, v) :: csub r k else csub r k
+  | ([], _) :: r => csub r k
+  end.
+Definition csub_path (c : chm) (p : path) : chm := fold_left csub p c.
 Definition csub_addr (c : chm) (a : addr) : chm := csub_path c (map KS a).
-Definition cvalue (c : chm) : option val := match c with CV v => Some v | _ => None end.
-Definition cis_empty (c : chm) : bool := match c with CE => true | CN [] => true | _ => false end.
-
-(* c extended under a static path *)
-Fixpoint cprefix (p : list ckey) (c : chm) : chm :=
-  match p with [] => c | k :: r => if cis_empty c then CE else CN [(k, cprefix r c)] end.
-(* left-biased union *)
-Fixpoint cmerge (a b : chm) {struct a} : chm :=
-  match a, b with
-  | CE, _ => b
-  | _, CE => a
-  | CN ka, CN kb =>
-      let fix go (ka : list (ckey * chm)) : list (ckey * chm) :=
-          match ka with
-          | [] => []
-          | (k, c) :: r => (k, cmerge c (kids_get kb k)) :: go r
-          end in
-      CN (go ka ++ filter (fun kc => negb (existsb (fun kc' => ckey_eqb (fst kc) (fst kc')) ka)) kb)
-  | _, _ => a
-  end.
+Definition cvalue (c : chm) : option val := cget c [].
+Definition cis_empty (c : chm) : bool := match c with [] => true | _ => false end.
+Definition cprefix (p : path) (c : chm) : chm := map (fun e => (p ++ fst e, snd e)) c.
+Definition cmerge (a b : chm) : chm := a ++ b.
+(* ChoiceMap.mask with an array flag: leaves keep their value under the conjunction of the flags *)
+Definition vmask (f : bool) (v : val) : val :=
+  if f then v else match v with VM _ w => VM false w | _ => VM false v end.
+Definition cmask (f : bool) (c : chm) : chm := map (fun e => (fst e, vmask f (snd e))) c.
+(* Mask.build(v, f) with an array flag: a Mask inside is flattened, the flags conjoined *)
+Definition mbuild (f : bool) (v : val) : val := match v with VM g w => VM (f && g) w | _ => VM f v end.
 
 (* ---------------- traces ---------------- *)
 Inductive trace :=
@@ -178,7 +201,7 @@ Inductive trace :=
 | TVmap (inner : list trace) (args : list val)
 | TScan (inner : list trace) (args : list val) (ret : val) (score : Z)
 | TSwitch (args : list val) (k : nat) (sub : trace) (ret : val) (score : Z)
-| TMask (inner : trace) (check : bool)
+| TMask (inner : trace) (check : bool) (args : list val)
 | TDimap (inner : trace) (args : list val) (ret : val).
 
 Definition zsum (l : list Z) : Z := fold_right Z.add 0 l.
@@ -190,7 +213,7 @@ Fixpoint t_score (t : trace) {struct t} : Z :=
   | TVmap inner _ => zsum (map t_score inner)
   | TScan _ _ _ s => s
   | TSwitch _ _ _ _ s => s
-  | TMask inner check => if check then t_score inner else 0
+  | TMask inner check _ => if check then t_score inner else 0
   | TDimap inner _ _ => t_score inner
   end.
 
@@ -201,7 +224,7 @@ Fixpoint t_retval (t : trace) {struct t} : val :=
   | TVmap inner _ => VA (map t_retval inner)
   | TScan _ _ r _ => r
   | TSwitch _ _ _ r _ => r
-  | TMask inner check => VM check (t_retval inner)
+  | TMask inner check _ => mbuild check (t_retval inner)
   | TDimap _ _ r => r
   end.
 
@@ -212,25 +235,22 @@ Definition t_args (t : trace) : list val :=
   | TVmap _ a => a
   | TScan _ a _ _ => a
   | TSwitch a _ _ _ _ => a
-  | TMask inner check => VB check :: (match inner with
-                                       | TDist _ a _ _ | TStatic a _ _ | TVmap _ a | TScan _ a _ _ | TSwitch a _ _ _ _ | TDimap _ a _ => a
-                                       | TMask _ _ => [] end)
+  | TMask _ _ a => a
   | TDimap _ a _ => a
   end.
 
+Definition flat_mapi {A B} (f : nat -> A -> list B) : nat -> list A -> list B :=
+  fix go (i : nat) (l : list A) : list B :=
+    match l with [] => [] | x :: r => f i x ++ go (S i) r end.
+
 Fixpoint t_choices (t : trace) {struct t} : chm :=
   match t with
-  | TDist _ _ v _ => CV (VZ v)
-  | TStatic _ _ subs =>
-      fold_left (fun acc p => cmerge acc (cprefix (map KS (fst p)) (t_choices (snd p)))) subs CE
+  | TDist _ _ v _ => [([], VZ v)]
+  | TStatic _ _ subs => flat_map (fun p => cprefix (map KS (fst p)) (t_choices (snd p))) subs
   | TVmap inner _ | TScan inner _ _ _ =>
-      match (fix go (i : nat) (l : list trace) : list (ckey * chm) :=
-               match l with [] => [] | x :: r => (KI i, t_choices x) :: go (S i) r end) 0%nat inner with
-      | [] => CE
-      | kids => CN kids
-      end
+      flat_mapi (fun i x => cprefix [KI i] (t_choices x)) 0%nat inner
   | TSwitch _ _ sub _ _ => t_choices sub
-  | TMask inner check => if check then t_choices inner else CE
+  | TMask inner check _ => cmask check (t_choices inner)
   | TDimap inner _ _ => t_choices inner
   end.
 
@@ -275,6 +295,11 @@ Definition clampZ (z : Z) (n : nat) : nat := Z.to_nat (Z.max 0 (Z.min z (Z.of_na
 Definition stack_vals (l : list val) : val :=
   if forallb (fun v => match v with VNone => true | _ => false end) l
   then (match l with [] => VA [] | _ => VNone end) else VA l.
+Definition scan_len (n : option nat) (xs : val) : option nat :=
+  match n with Some m => Some m | None => leading_len xs end.
+(* the kernel's return value must be a (carry, y) pair *)
+Definition split_ret (v : val) : res (val * val) :=
+  match v with VT [c; y] => Ok (c, y) | _ => Err EType end.
 
 (* ---------------- simulate ---------------- *)
 Fixpoint simulate (g : gf) (k : key) (args : list val) {struct g} : res trace :=
@@ -291,30 +316,18 @@ Fixpoint simulate (g : gf) (k : key) (args : list val) {struct g} : res trace :=
       match vmap_len axes args with
       | None => Err EType
       | Some n =>
-          do inner <- (fix go (is : list nat) : res (list trace) :=
-                         match is with
-                         | [] => Ok []
-                         | i :: r => do t <- simulate g' (fold_in k (N.of_nat i)) (slice_args axes args i);
-                                     do ts <- go r; Ok (t :: ts)
-                         end) (seq 0 n);
+          do inner <- mapM (fun i => simulate g' (fold_in k (N.of_nat i)) (slice_args axes args i)) (seq 0 n);
           Ok (TVmap inner args)
       end
   | GScan n g' =>
       match args with
       | [carry; xs] =>
-          match (match n with Some m => Some m | None => leading_len xs end) with
+          match scan_len n xs with
           | None => Err EType
           | Some len =>
-              do r <- (fix go (is : list nat) (c : val) : res (list trace * val * list val) :=
-                         match is with
-                         | [] => Ok ([], c, [])
-                         | i :: r =>
-                             do t <- simulate g' (fold_in k (N.of_nat i)) [c; slice0 xs i];
-                             match t_retval t with
-                             | VT [c'; y] => do rr <- go r c'; let '(ts, cf, ys) := rr in Ok (t :: ts, cf, y :: ys)
-                             | _ => Err EType
-                             end
-                         end) (seq 0 len) carry;
+              do r <- scanM (fun i c => do t <- simulate g' (fold_in k (N.of_nat i)) [c; slice0 xs i];
+                                        do cy <- split_ret (t_retval t); Ok (t, fst cy, snd cy))
+                            (seq 0 len) carry;
               let '(ts, cf, ys) := r in
               Ok (TScan ts args (VT [cf; stack_vals ys]) (zsum (map t_score ts)))
           end
@@ -334,7 +347,7 @@ Fixpoint simulate (g : gf) (k : key) (args : list val) {struct g} : res trace :=
       end
   | GMask g' =>
       match args with
-      | VB check :: a => do t <- simulate g' k a; Ok (TMask t check)
+      | VB check :: a => do t <- simulate g' k a; Ok (TMask t check args)
       | _ => Err EType
       end
   | GDimap pre g' post =>
@@ -375,31 +388,19 @@ Fixpoint assess (g : gf) (c : chm) (args : list val) {struct g} : res (Z * val) 
       match vmap_len axes args with
       | None => Err EType
       | Some n =>
-          do rs <- (fix go (is : list nat) : res (list (Z * val)) :=
-                      match is with
-                      | [] => Ok []
-                      | i :: r => do x <- assess g' (csub c (KI i)) (slice_args axes args i);
-                                  do xs <- go r; Ok (x :: xs)
-                      end) (seq 0 n);
+          do rs <- mapM (fun i => assess g' (csub c (KI i)) (slice_args axes args i)) (seq 0 n);
           Ok (zsum (map fst rs), VA (map snd rs))
       end
   | GScan n g' =>
       match args with
       | [carry; xs] =>
-          match (match n with Some m => Some m | None => leading_len xs end) with
+          match scan_len n xs with
           | None => Err EType
           | Some len =>
-              do r <- (fix go (is : list nat) (cr : val) : res (Z * val * list val) :=
-                         match is with
-                         | [] => Ok (0, cr, [])
-                         | i :: r =>
-                             do x <- assess g' (csub c (KI i)) [cr; slice0 xs i];
-                             match snd x with
-                             | VT [c'; y] => do rr <- go r c'; let '(s, cf, ys) := rr in Ok (fst x + s, cf, y :: ys)
-                             | _ => Err EType
-                             end
-                         end) (seq 0 len) carry;
-              let '(s, cf, ys) := r in Ok (s, VT [cf; stack_vals ys])
+              do r <- scanM (fun i cr => do x <- assess g' (csub c (KI i)) [cr; slice0 xs i];
+                                         do cy <- split_ret (snd x); Ok (fst x, fst cy, snd cy))
+                            (seq 0 len) carry;
+              let '(ss, cf, ys) := r in Ok (zsum ss, VT [cf; stack_vals ys])
           end
       | _ => Err EType
       end
@@ -416,8 +417,7 @@ Fixpoint assess (g : gf) (c : chm) (args : list val) {struct g} : res (Z * val) 
   | GMask g' =>
       match args with
       | VB check :: a =>
-          if check then do x <- assess g' c a; Ok (fst x, VM true (snd x))
-          else Ok (0, VM false VNone)        (* observationally: score check*s = 0, invalid mask *)
+          do x <- assess g' c a; Ok (if check then fst x else 0, mbuild check (snd x))   (* check * score, Mask.build(retval, check) *)
       | _ => Err EType
       end
   | GDimap pre g' post =>
@@ -465,32 +465,20 @@ Fixpoint generate (g : gf) (k : key) (c : chm) (args : list val) {struct g} : re
       match vmap_len axes args with
       | None => Err EType
       | Some n =>
-          do rs <- (fix go (is : list nat) : res (list (trace * Z)) :=
-                      match is with
-                      | [] => Ok []
-                      | i :: r => do x <- generate g' (fold_in k (N.of_nat i)) (csub c (KI i)) (slice_args axes args i);
-                                  do xs <- go r; Ok (x :: xs)
-                      end) (seq 0 n);
+          do rs <- mapM (fun i => generate g' (fold_in k (N.of_nat i)) (csub c (KI i)) (slice_args axes args i)) (seq 0 n);
           Ok (TVmap (map fst rs) args, zsum (map snd rs))
       end
   | GScan n g' =>
       match args with
       | [carry; xs] =>
-          match (match n with Some m => Some m | None => leading_len xs end) with
+          match scan_len n xs with
           | None => Err EType
           | Some len =>
-              do r <- (fix go (is : list nat) (cr : val) : res (list trace * val * list val * Z) :=
-                         match is with
-                         | [] => Ok ([], cr, [], 0)
-                         | i :: r =>
-                             do x <- generate g' (fold_in k (N.of_nat i)) (csub c (KI i)) [cr; slice0 xs i];
-                             match t_retval (fst x) with
-                             | VT [c'; y] => do rr <- go r c'; let '(ts, cf, ys, w) := rr in Ok (fst x :: ts, cf, y :: ys, snd x + w)
-                             | _ => Err EType
-                             end
-                         end) (seq 0 len) carry;
-              let '(ts, cf, ys, w) := r in
-              Ok (TScan ts args (VT [cf; stack_vals ys]) (zsum (map t_score ts)), w)
+              do r <- scanM (fun i cr => do x <- generate g' (fold_in k (N.of_nat i)) (csub c (KI i)) [cr; slice0 xs i];
+                                         do cy <- split_ret (t_retval (fst x)); Ok (x, fst cy, snd cy))
+                            (seq 0 len) carry;
+              let '(xs', cf, ys) := r in
+              Ok (TScan (map fst xs') args (VT [cf; stack_vals ys]) (zsum (map t_score (map fst xs'))), zsum (map snd xs'))
           end
       | _ => Err EType
       end
@@ -508,7 +496,7 @@ Fixpoint generate (g : gf) (k : key) (c : chm) (args : list val) {struct g} : re
       end
   | GMask g' =>
       match args with
-      | VB check :: a => do x <- generate g' k c a; Ok (TMask (fst x) check, if check then snd x else 0)
+      | VB check :: a => do x <- generate g' k c a; Ok (TMask (fst x) check args, if check then snd x else 0)
       | _ => Err EType
       end
   | GDimap pre g' post =>
@@ -541,23 +529,15 @@ Fixpoint project (t : trace) (s : sel) {struct t} : res Z :=
   match t with
   | TDist _ _ _ sc => Ok (if check s then sc else 0)
   | TStatic _ _ subs =>
-      (fix go (l : list (addr * trace)) : res Z :=
-         match l with
-         | [] => Ok 0
-         | (a, x) :: r => do w <- project x (sel_addr s a); do ws <- go r; Ok (w + ws)
-         end) subs
+      do ws <- mapM (fun p => project (snd p) (sel_addr s (fst p))) subs; Ok (zsum ws)
   | TVmap inner _ | TScan inner _ _ _ =>
-      (fix go (l : list trace) : res Z :=
-         match l with
-         | [] => Ok 0
-         | x :: r => do w <- project x s; do ws <- go r; Ok (w + ws)
-         end) inner
+      do ws <- mapM (fun x => project x s) inner; Ok (zsum ws)
   | TSwitch _ _ sub _ _ => project sub s
-  | TMask _ _ => Err ENotSupported
+  | TMask _ _ _ => Err ENotSupported
   | TDimap inner _ _ => project inner s
   end.
 
-(* ---------------- get_subtrace (one address component path) ---------------- *)
+(* ---------------- get_subtrace (one static address) ---------------- *)
 Fixpoint subs_get (subs : list (addr * trace)) (a : addr) : option trace :=
   match subs with
   | [] => None
@@ -567,8 +547,113 @@ Fixpoint get_inner_trace (t : trace) (a : addr) {struct t} : res trace :=
   match t with
   | TStatic _ _ subs => match subs_get subs a with Some x => Ok x | None => Err EOther end
   | TSwitch _ _ sub _ _ => get_inner_trace sub a
-  | TMask inner _ => get_inner_trace inner a
+  | TMask inner _ _ => get_inner_trace inner a
   | TDimap inner _ _ => get_inner_trace inner a
   | TDist _ _ _ _ => Err ENotSupported
-  | TVmap _ _ | TScan _ _ _ _ => Err ENotSupported   (* stacked sub-traces: observed through the vector ops below *)
+  | TVmap _ _ | TScan _ _ _ _ => Err ENotSupported   (* stacked sub-traces: not observed one element at a time *)
   end.
+
+(* ================= the reference semantics (specification side) =================
+   "the sum, over every random choice the program makes, of that choice's
+   log-density at its value given the values it depends on, exactly as the
+   program text defines": `ref` runs the program text over a finite map of
+   choice values and lists the random choices it makes — no traces, keys or
+   stored scores.  Python loop for scan, branches[clamp idx] for switch,
+   `if flag` for mask. *)
+Record term := { tm_path : path; tm_dist : nat; tm_val : Z; tm_par : Z }.
+Definition tm_logpdf (t : term) : Z := d_logpdf (tm_dist t) (tm_val t) (tm_par t).
+Definition tm_prefix (p : path) (t : term) : term :=
+  {| tm_path := p ++ tm_path t; tm_dist := tm_dist t; tm_val := tm_val t; tm_par := tm_par t |}.
+Definition leaf_Z (v : val) : option Z :=
+  match v with VZ z => Some z | VM _ (VZ z) => Some z | _ => None end.
+
+Fixpoint ref (g : gf) (c : chm) (args : list val) {struct g} : res (list term * val) :=
+  match g with
+  | GDist d =>
+      match args with
+      | [VZ p] => match cvalue c with
+                  | Some v => match leaf_Z v with
+                              | Some z => Ok ([{| tm_path := []; tm_dist := d; tm_val := z; tm_par := p |}], VZ z)
+                              | None => Err EOther end
+                  | None => Err EOther end
+      | _ => Err EType
+      end
+  | GStatic b => ref_body b c args []
+  | GVmap axes g' =>
+      match vmap_len axes args with
+      | None => Err EType
+      | Some n =>
+          do rs <- mapM (fun i => do x <- ref g' (csub c (KI i)) (slice_args axes args i);
+                                  Ok (map (tm_prefix [KI i]) (fst x), snd x)) (seq 0 n);
+          Ok (concat (map fst rs), VA (map snd rs))
+      end
+  | GScan n g' =>
+      match args with
+      | [carry; xs] =>
+          match scan_len n xs with
+          | None => Err EType
+          | Some len =>
+              do r <- scanM (fun i cr => do x <- ref g' (csub c (KI i)) [cr; slice0 xs i];
+                                         do cy <- split_ret (snd x);
+                                         Ok (map (tm_prefix [KI i]) (fst x), fst cy, snd cy))
+                            (seq 0 len) carry;
+              let '(ts, cf, ys) := r in Ok (concat ts, VT [cf; stack_vals ys])
+          end
+      | _ => Err EType
+      end
+  | GSwitch bs =>
+      match args with
+      | VZ idx :: bargs =>
+          let j := clampZ idx (gfs_len bs) in
+          match nth_error bargs j with
+          | Some (VT a) => ref_branch bs j c a
+          | _ => Err EType
+          end
+      | _ => Err EType
+      end
+  | GMask g' =>
+      match args with
+      | VB check :: a => do x <- ref g' c a; Ok (if check then fst x else [], mbuild check (snd x))
+      | _ => Err EType
+      end
+  | GDimap pre g' post =>
+      do ia <- eval_list args pre;
+      do x <- ref g' c ia;
+      do r <- eval [VT args; VT ia; snd x] post;
+      Ok (fst x, r)
+  end
+with ref_body (b : sbody) (c : chm) (env : list val) (acc : list term) {struct b} : res (list term * val) :=
+  match b with
+  | SRet e => do v <- eval env e; Ok (acc, v)
+  | SSite a g' aexprs rest =>
+      do av <- eval_list env aexprs;
+      let sub := csub_addr c a in
+      if cis_empty sub then Err EMissingAddress
+      else do x <- ref g' sub av;
+           ref_body rest c (env ++ [snd x]) (acc ++ map (tm_prefix (map KS a)) (fst x))
+  end
+with ref_branch (bs : gfs) (j : nat) (c : chm) (a : list val) {struct bs} : res (list term * val) :=
+  match bs, j with
+  | GNil, _ => Err EType
+  | GCons g' _, O => ref g' c a
+  | GCons _ r, S j' => ref_branch r j' c a
+  end.
+
+(* the live random choices recorded in a trace *)
+Fixpoint t_terms (t : trace) {struct t} : list term :=
+  match t with
+  | TDist d args v _ => match args with [VZ p] => [{| tm_path := []; tm_dist := d; tm_val := v; tm_par := p |}] | _ => [] end
+  | TStatic _ _ subs => flat_map (fun p => map (tm_prefix (map KS (fst p))) (t_terms (snd p))) subs
+  | TVmap inner _ | TScan inner _ _ _ =>
+      flat_mapi (fun i x => map (tm_prefix [KI i]) (t_terms x)) 0%nat inner
+  | TSwitch _ _ sub _ _ => t_terms sub
+  | TMask inner check _ => if check then t_terms inner else []
+  | TDimap inner _ _ => t_terms inner
+  end.
+
+(* static part of a full address: index levels are transparent to selections *)
+Fixpoint static_part (p : path) : list nat :=
+  match p with [] => [] | KS n :: r => n :: static_part r | KI _ :: r => static_part r end.
+(* an address is constrained when the constraint holds a valid value there *)
+Definition constrained (c : chm) (p : path) : bool :=
+  match cget c p with Some (VM false _) | None => false | Some _ => true end.
